@@ -73,7 +73,7 @@ class PROP(PropCheck):
     def expected(self, case, impl):
         if impl is None or impl.startswith(("ABORT", "PANIC")):
             return "X " + str(impl)
-        return impl.replace(" RENDERPANIC", "")
+        return impl.replace(" RENDERPANIC", "").replace(" BADSPAN", "")
 
     def oracle(self, case, impl):
         if impl is None or impl.startswith("ABORT"):
